@@ -30,7 +30,7 @@ def run(ctx):
     # non-vacuity of the refinement check: without the named deviations the model of the decoder is outside the property
     o = ctx.tlc("MultipartGen", "MC_Multipart_strict.cfg", workers=2, expect_violation=True)
     ctx.extra["nonvacuity"] = "RefineStrict (no deviation exempted) yields: " + str(o.violation)
-    obs, verdicts = standard_pipeline(ctx, sub="multipart", mc=mc, gen=gen, trace=("Trace_Multipart", "Trace_Multipart.cfg"),
+    obs, verdicts = standard_pipeline(ctx, checked=True, sub="multipart", mc=mc, gen=gen, trace=("Trace_Multipart", "Trace_Multipart.cfg"),
                                       random_n=20000 if q else 200000, post_gen=_cv(ctx.seed), jobs=12, chunk=50000 if q else 100000,
                                       trace_timeout=1800)
     kinds = {}
